@@ -308,8 +308,20 @@ def point_str_precision(ctx):
            "%G writes small numbers in exponent form; stripping trailing zeros then eats the exponent's last digit: a relative offset of 1.5e-10 is written 1.5E-1 and read back as 0.15")
     # reader side of rotation: degrees
     sp = ctx.fn("Arc._svg_parameterize", "R07.2")
-    src = ast.unparse(sp)
-    ctx.ob("R07.2", "Arc._svg_parameterize[rotation unit]", "radians(rotation)" in src and "Angle.degrees(rotation)" in src, "", sp.lineno,
+    # the rotation operand is the 4th of the seven SVG arc parameters (after self: start, rx, ry, rotation, ...)
+    pnames = [a.arg for a in sp.args.args]
+    ctx.need(len(pnames) == 8, "R07.2", "Arc._svg_parameterize: seven parameters expected, found %s" % pnames[1:])
+    rot = pnames[4]
+    from ..flow import Taint as _T
+    trot = _T(sp, lambda n: isinstance(n, ast.Name) and n.id == rot, through_containers=False)
+    # every trigonometric use goes through a degrees->radians conversion: radians(x) or Angle.degrees(x)
+    conv = [c for c in ast.walk(sp) if isinstance(c, ast.Call) and (call_name(c) in ("radians", "math.radians", "Angle.degrees")) and c.args and trot.derived(c.args[0])]
+    raw_trig = [c for c in ast.walk(sp) if isinstance(c, ast.Call) and call_name(c) in ("cos", "sin", "tan", "math.cos", "math.sin") and c.args and isinstance(c.args[0], ast.Name)
+                and c.args[0].id == rot]
+    wrong = [c for c in ast.walk(sp) if isinstance(c, ast.Call) and call_name(c) in ("Angle.radians", "Angle.turns", "Angle.gradians", "degrees", "math.degrees") and c.args and isinstance(c.args[0], ast.Name) and c.args[0].id == rot]
+    conv = [c for c in conv if isinstance(c.args[0], ast.Name) and c.args[0].id == rot]
+    ctx.ob("R07.2", "Arc._svg_parameterize[rotation unit]", bool(conv) and not raw_trig and not wrong,
+           "conversions from degrees: %d; trigonometry on the raw operand: %d; other unit constructors: %d" % (len(conv), len(raw_trig), len(wrong)), sp.lineno,
            "the reader interprets the arc rotation operand as degrees")
 
 
